@@ -23,7 +23,7 @@ def run(tier, replay=None):
         for cid, c in base.items():
             # k beyond log2 n, beyond the girth and beyond n are valid parameters too (the spanner is then a forest-like
             # subgraph whose shortest cycle has more than 2k edges, or the whole graph minus nothing)
-            for k in ([1, 2, 3, 4, r.choice([5, 6, 7]), r.choice([8, 11, 16, c[0] + 1])] if not cid.startswith("x") else [1, 2, r.choice([3, 4, 5])]):
+            for k in ([1, 2, 3, 4, r.choice([5, 6, 7]), r.choice([8, 11, 16, c[0] + 1, 2 ** 30 + 1, 2 ** 32 + 5, 2 ** 40])] if not cid.startswith("x") else [1, 2, r.choice([3, 4, 5])]):
                 if not cid.startswith("x") and r.random() < .4: continue
                 cases["%s-k%d" % (cid, k)] = c; meta["%s-k%d" % (cid, k)] = ("-", k)
     rc, out, err = run_kind(binary, "spanner", cases, meta, lambda m: [m[1]])
